@@ -1837,6 +1837,78 @@ func scFreshLiterals(r *h.Rng) *prog {
 	return p
 }
 
+// primitives as the base of member expressions (8.7.1 / 8.7.2 special [[Get]] / [[Put]], 11.4.1, 11.2.3): reads, writes,
+// `+=`, `++`, delete and calls through "abc", 5, true, with nothing / a data property / a logging accessor pair named
+// `tag` on the wrapper's prototype or on Object.prototype; the same through an ordinary object for comparison
+func scPrimBase(r *h.Rng) *prog {
+	p := &prog{}
+	p.v("b", "o", "e")
+	kinds := []string{"String", "Number", "Boolean"}
+	bases := []m.N{m.Str("abc"), m.Num(5), m.Bool(true)}
+	ki := r.Intn(3)
+	base := bases[ki]
+	if r.Chance(40) {
+		p.add(m.X(m.Asg("b", base)))
+		base = m.Var("b")
+	}
+	// what the chain of the wrapper holds for `tag`
+	where := m.WProto(kinds[ki])
+	if r.Chance(30) {
+		where = m.WProto("Object")
+	}
+	switch r.Intn(5) {
+	case 0, 1:
+		p.add(m.X(m.DefAcc(where, "tag", "a1")))
+	case 2:
+		p.add(m.X(m.Set(where, "tag", m.Num(7))))
+	case 3: // an accessor further up, shadowed by a data property nearer the wrapper
+		p.add(m.X(m.DefAcc(m.WProto("Object"), "tag", "a2")), m.X(m.DefRO(m.WProto(kinds[ki]), "tag", m.Num(8))))
+	default:
+	}
+	// a method on the prototype: what it sees as this
+	p.add(m.X(m.Set(m.WProto(kinds[ki]), "who", m.Fn{Params: []string{"x"}, Body: []m.N{m.Ret(m.Add(m.Typeof(m.This()), m.Var("x")))}}.Expr())))
+	p.add(m.X(m.Asg("o", m.Obj(m.Prop{K: "own", V: m.Num(1)}))))
+	for k := 3 + r.Intn(5); k > 0; k-- {
+		tgt := base
+		if r.Chance(20) {
+			tgt = m.Var("o")
+		}
+		key := "tag"
+		if r.Chance(15) {
+			key = "length"
+		}
+		switch r.Intn(9) {
+		case 0:
+			p.add(lg(m.Get(tgt, key)))
+		case 1:
+			p.add(lg(m.GetE(tgt, m.Str(key))))
+		case 2:
+			p.add(lg(m.Set(tgt, key, m.Num(20+k))), lg(m.Typeof(m.Get(tgt, key))))
+		case 3:
+			p.add(lg(m.SetE(tgt, m.Str(key), m.Str("w"))))
+		case 4:
+			p.add(lg(m.OpSet(tgt, key, m.Num(1))))
+		case 5:
+			p.add(lg(m.Incr(tgt, key)))
+		case 6:
+			p.add(lg(m.Del(tgt, key)), lg(m.Typeof(m.Get(tgt, key))))
+		case 7:
+			p.add(m.Try([]m.N{lg(m.MCall(tgt, pickS(r, []string{"who", "tag"}), m.Str("!")))}, "e", []m.N{lg(m.Get(m.Var("e"), "name"))}, nil, true, false))
+		default: // the accessor is redefined, dropped, or replaced by data in between
+			switch r.Intn(3) {
+			case 0:
+				p.add(m.X(m.DefAcc(where, "tag", "a3")))
+			case 1:
+				p.add(lg(m.Del(where, "tag")))
+			default:
+				p.add(m.X(m.DefNE(where, "tag", m.Num(9))))
+			}
+		}
+	}
+	p.add(lg(m.Typeof(m.Get(m.Var("o"), "tag"))), lg(m.Get(m.Var("o"), "own")))
+	return p
+}
+
 func init() {
 	fnScenarios = append(fnScenarios, []fnScenario{
 		{"with-lookup", scWithLookup}, {"with-closure", scWithClosure}, {"with-this", scWithThis}, {"with-var", scWithVar},
@@ -1846,5 +1918,5 @@ func init() {
 		{"labels", scLabels}, {"dup-params", scDupParams}, {"order", scOrder},
 		{"label-capture", scLabelCapture}, {"eval-throw", scEvalThrow},
 		{"hoist-collide", scHoistCollide}, {"label-stale", scLabelStale}, {"host-reentry", scHostReentry},
-		{"bind-chain", scBindChain}, {"forin-init", scForInInit}, {"eval-delete", scEvalDelete}, {"args-define", scArgsDefine}, {"global-redeclare", scGlobalRedeclare}, {"cond-ref", scCondRef}, {"late-global", scLateGlobal}, {"uncaught", scUncaught}, {"fresh-literals", scFreshLiterals}}...)
+		{"bind-chain", scBindChain}, {"forin-init", scForInInit}, {"eval-delete", scEvalDelete}, {"args-define", scArgsDefine}, {"global-redeclare", scGlobalRedeclare}, {"cond-ref", scCondRef}, {"late-global", scLateGlobal}, {"uncaught", scUncaught}, {"fresh-literals", scFreshLiterals}, {"prim-base", scPrimBase}}...)
 }
